@@ -287,6 +287,20 @@ fn main() -> Result<()> {
     let (log_output_dest, log_reload_handle, _log_appender_guard) =
         init_logging(&opt, keypair.public().to_peer_id())?;
 
+    // verification hook: report the protocol identifiers the node is about to start with, then exit
+    #[cfg(feature = "verif-hooks")]
+    if std::env::var_os("ANTNODE_VERIF_DUMP_PROTO").is_some() {
+        println!(
+            "VERIF-PROTO logged_identify={} identify={} req_response={} node_version={} network_id={}",
+            identify_protocol_str.as_str(),
+            version::IDENTIFY_PROTOCOL_STR.read().expect("read lock").as_str(),
+            version::REQ_RESPONSE_VERSION_STR.read().expect("read lock").as_str(),
+            version::IDENTIFY_NODE_VERSION_STR.read().expect("read lock").as_str(),
+            version::get_network_id(),
+        );
+        return Ok(());
+    }
+
     let rt = Runtime::new()?;
     let mut bootstrap_cache = BootstrapCacheStore::new_from_peers_args(
         &opt.peers,
